@@ -18,6 +18,7 @@ func C02(thorough bool, yield func(Program)) {
 	} else {
 		C02Multi(4, yield)
 	}
+	C02Events(yield)
 	maxD := 3
 	if thorough {
 		maxD = 5
